@@ -13,8 +13,8 @@ cd ..
 import sys
 sys.path.insert(0, "tools")
 from lib import build
-b = build.build(None)
-print("setup: model/driver build", "ok" if b.ok else "FAILED at " + b.stage)
+b = build.build(None, extended=True)
+print("setup: model/driver build", "ok" if b.ok else "FAILED at " + b.stage, "| extended driver", "ok" if b.driverx_ok else "not built")
 if not b.ok:
     print(b.log[-3000:])
     sys.exit(1)
